@@ -7,8 +7,11 @@ import (
 	"context"
 	"fmt"
 	"os"
+	"regexp"
+	"runtime"
 	"strconv"
 	"strings"
+	"sync"
 	"time"
 
 	"github.com/flant/shell-operator/pkg/task"
@@ -39,6 +42,14 @@ type Op struct {
 	// 2 each slice with spare capacity, 3 a buffer the handler owns and reuses for every call.
 	// After the result has been applied the handler overwrites everything it owns with a poison task.
 	Share int `json:"share,omitempty"`
+	// IterateDuring: an observer (Via 0: Iterate with a callback, 1: String(), which walks the queue
+	// through Iterate and calls every task's GetDescription) is held up at element number Pos (0-based;
+	// beyond the end = not held up at all) while another goroutine issues the operations of Chain one
+	// after the other; the observer goes on when that goroutine has finished or is seen not to make
+	// progress (it waits for the queue's lock).
+	Pos   int  `json:"pos,omitempty"`
+	Via   int  `json:"via,omitempty"`
+	Chain []Op `json:"chain,omitempty"`
 }
 
 type Input struct {
@@ -54,6 +65,10 @@ type Obs struct {
 	Running *Task   `json:"running"`
 	Ret     *Task   `json:"ret"`
 	Crash   string  `json:"crash,omitempty"`
+	// IterateDuring: the tasks the overlapping observer reported, in its order, and what the
+	// overlapping operations returned
+	Walk []*Task `json:"walk,omitempty"`
+	Rets []*Task `json:"rets,omitempty"`
 }
 
 type Observation struct {
@@ -66,8 +81,56 @@ func mk(t Task) task.Task {
 	bt := task.NewTask("T")
 	bt.Id = strconv.Itoa(t.Id)
 	bt.SetProp("uniq", t.Uniq)
+	bt.Metadata = meta{uniq: t.Uniq}
 	return bt
 }
+
+// meta makes a task's description carry its uniq tag (String() prints description and id), and lets
+// the harness hold String()'s walk up at a chosen task: BaseTask.GetDescription calls it.
+type meta struct{ uniq int }
+
+var (
+	descHookMu sync.Mutex
+	descHook   func()
+)
+
+func setDescHook(f func()) { descHookMu.Lock(); descHook = f; descHookMu.Unlock() }
+
+func (m meta) GetDescription() string {
+	descHookMu.Lock()
+	h := descHook
+	descHookMu.Unlock()
+	if h != nil {
+		h()
+	}
+	return "u" + strconv.Itoa(m.uniq)
+}
+
+// goid: number of the calling goroutine (the worker goroutine calls String() too, for its debug lines)
+func goid() string {
+	var buf [64]byte
+	f := strings.Fields(string(buf[:runtime.Stack(buf[:], false)]))
+	if len(f) > 1 {
+		return f[1]
+	}
+	return ""
+}
+
+var stringElem = regexp.MustCompile(`\[T:[^\]]*?:u(\d+)[^\]]*?,id=\s*(\d+)\]`)
+
+// parseString: the tasks of a String() dump "[T::u<uniq>...,id=<id>], [..."
+func parseString(s string) []*Task {
+	var r []*Task
+	for _, m := range stringElem.FindAllStringSubmatch(s, -1) {
+		u, _ := strconv.Atoi(m[1])
+		id, _ := strconv.Atoi(m[2])
+		r = append(r, &Task{Id: id, Uniq: u})
+	}
+	return r
+}
+
+// how long a held-up observer waits for the other goroutine before it concludes that it is blocked
+const holdTime = 2 * time.Millisecond
 
 func un(t task.Task) (res *Task) {
 	if t == nil {
@@ -191,9 +254,10 @@ func Run(in Input) Observation {
 		}
 	}
 
-	for _, op := range in.Ops {
-		var ret task.Task
-		func() {
+	var walk, rets []*Task
+	var execOp func(op Op) (ret task.Task)
+	execOp = func(op Op) (ret task.Task) {
+		{
 			defer func() {
 				if r := recover(); r != nil {
 					crashed = fmt.Sprint("panic: ", r)
@@ -298,8 +362,75 @@ func Run(in Input) Observation {
 						crashed = "result not applied within 3s (worker died?)"
 					}
 				}
+			case "IterateDuring":
+				done := make(chan struct{})
+				entered := make(chan struct{})
+				launched := false
+				launch := func() {
+					launched = true
+					go func() {
+						defer close(done)
+						close(entered)
+						for _, c := range op.Chain {
+							if c.Kind == "IterateDuring" {
+								rets = append(rets, nil)
+								continue
+							}
+							r := execOp(c)
+							rets = append(rets, un(r))
+							if crashed != "" {
+								return
+							}
+							quiesce()
+						}
+					}()
+				}
+				idx := 0
+				visit := func() {
+					if idx == op.Pos && !launched {
+						launch()
+						<-entered
+						select {
+						case <-done:
+						case <-time.After(holdTime):
+						}
+					}
+					idx++
+				}
+				walk = []*Task{}
+				if op.Via == 1 {
+					me := goid()
+					setDescHook(func() {
+						if goid() == me {
+							visit()
+						}
+					})
+					func() {
+						defer setDescHook(nil)
+						walk = append(walk, parseString(q.String())...)
+					}()
+				} else {
+					q.Iterate(func(t task.Task) {
+						visit()
+						walk = append(walk, un(t))
+					})
+				}
+				if !launched {
+					launch()
+				}
+				select {
+				case <-done:
+				case <-time.After(5 * time.Second):
+					crashed = "the operations issued during the observer did not return within 5s"
+				}
 			}
-		}()
+		}
+		return
+	}
+
+	for _, op := range in.Ops {
+		walk, rets = nil, nil
+		ret := execOp(op)
 		if crashed != "" {
 			// do not touch the queue again: a panic inside withLock leaves it locked
 			out.Steps = append(out.Steps, Obs{Crash: crashed})
@@ -307,6 +438,7 @@ func Run(in Input) Observation {
 		}
 		quiesce()
 		o := observe(ret)
+		o.Walk, o.Rets = walk, rets
 		out.Steps = append(out.Steps, o)
 		if crashed != "" || o.Crash != "" {
 			break
@@ -344,10 +476,19 @@ func coqOp(o Op) string {
 	return o.Kind
 }
 
+// top level: an operation, or an observer overlapping the operations of another goroutine
+func coqXOp(o Op) string {
+	if o.Kind == "IterateDuring" {
+		return fmt.Sprintf("IterateDuring %d %s", o.Pos, core.CoqList(o.Chain, coqOp))
+	}
+	return "Plain (" + coqOp(o) + ")"
+}
+
 func coqObs(o Obs) string {
-	return fmt.Sprintf("mkObs %s %d %s %s %s %s %s %s",
+	return fmt.Sprintf("mkXObs (mkObs %s %d %s %s %s %s %s %s) %s %s",
 		core.CoqList(o.Items, coqOTask), o.Len, coqOTask(o.First), coqOTask(o.Last),
-		core.CoqList(o.Gets, coqOTask), coqOTask(o.Running), coqOTask(o.Ret), core.CoqBool(o.Crash != ""))
+		core.CoqList(o.Gets, coqOTask), coqOTask(o.Running), coqOTask(o.Ret), core.CoqBool(o.Crash != ""),
+		core.CoqList(o.Walk, coqOTask), core.CoqList(o.Rets, coqOTask))
 }
 
 func Render(in Input, obs *Observation, crash string) core.Case {
@@ -359,17 +500,52 @@ func Render(in Input, obs *Observation, crash string) core.Case {
 		steps = append(steps, Obs{Crash: crash})
 	}
 	c := core.Case{}
-	c.Coq = fmt.Sprintf("(%s,\n  %s)", core.CoqList(in.Ops, coqOp), core.CoqList(steps, coqObs))
+	c.Coq = fmt.Sprintf("(%s,\n  %s)", core.CoqList(in.Ops, coqXOp), core.CoqList(steps, coqObs))
 	c.JSON = map[string]any{"steps": steps}
 	var kb strings.Builder
 	kinds := map[string]bool{}
-	for _, o := range in.Ops {
-		kb.WriteString(coqOp(o))
+	qlen := 0
+	for i, o := range in.Ops {
+		kb.WriteString(coqXOp(o))
 		kb.WriteString(";")
 		kinds[o.Kind] = true
 		c.Tags = append(c.Tags, "op:"+o.Kind)
 		if o.Kind == "Return" {
 			c.Tags = append(c.Tags, "ret:"+o.St)
+		}
+		if o.Kind == "IterateDuring" {
+			kb.WriteString(fmt.Sprintf("via%d;", o.Via))
+			c.Tags = append(c.Tags, []string{"observer:Iterate", "observer:String"}[o.Via&1], fmt.Sprintf("overlap:%d-ops", len(o.Chain)))
+			for _, cc := range o.Chain {
+				kinds[cc.Kind] = true
+				c.Tags = append(c.Tags, "overlap:"+cc.Kind)
+			}
+			// where the observer is held up, relative to the queue it walks
+			switch {
+			case qlen == 0:
+				c.Tags = append(c.Tags, "held:empty-queue")
+			case o.Pos >= qlen:
+				c.Tags = append(c.Tags, "held:not-at-all")
+			case o.Pos == 0:
+				c.Tags = append(c.Tags, "held:at-first")
+			case o.Pos == qlen-1:
+				c.Tags = append(c.Tags, "held:at-last")
+			default:
+				c.Tags = append(c.Tags, "held:in-the-middle")
+			}
+			if i < len(steps) && len(o.Chain) > 0 {
+				w, after := steps[i].Walk, steps[i].Items
+				same := len(w) == len(after)
+				for j := 0; same && j < len(w); j++ {
+					same = w[j] != nil && after[j] != nil && *w[j] == *after[j]
+				}
+				if !same {
+					c.Tags = append(c.Tags, "walk:differs-from-list-after")
+				}
+			}
+		}
+		if i < len(steps) {
+			qlen = steps[i].Len
 		}
 	}
 	c.Key = kb.String()
@@ -524,22 +700,174 @@ func (g *gen) sequence(n, dupPct, absentPct int) Input {
 				continue
 			}
 			ops = append(ops, Op{Kind: "Filter", Keep: keep})
+		case k < 70:
+			// an observer (Iterate / String) held up at some element while another goroutine issues one operation
+			c := g.overlapOp(&nextId, dupPct, absentPct, &present, true)
+			ops = append(ops, Op{Kind: "IterateDuring", Pos: g.r.Intn(4), Via: g.r.Intn(2), Chain: []Op{c}})
 		default:
-			st := []string{"Success", "Success", "Success", "Keep", "Fail", "Repeat"}[g.r.Intn(6)]
-			o := Op{Kind: "Return", St: st}
-			o.Head = g.tasks(g.r.Intn(3)*g.r.Intn(2), &nextId, dupPct, present)
-			o.After = g.tasks(g.r.Intn(3)*g.r.Intn(2), &nextId, dupPct, present)
-			o.Tail = g.tasks(g.r.Intn(3)*g.r.Intn(2), &nextId, dupPct, present)
-			if len(o.Head)+len(o.After)+len(o.Tail) > 0 && g.r.Chance(50) {
-				o.Share = 1 + g.r.Intn(3)
-			}
-			for _, t := range append(append(append([]Task{}, o.Head...), o.After...), o.Tail...) {
-				present = append(present, t.Id)
-			}
-			ops = append(ops, o)
+			ops = append(ops, g.ret(&nextId, dupPct, &present))
 		}
 	}
 	return Input{Ops: ops}
+}
+
+func (g *gen) ret(nextId *int, dupPct int, present *[]int) Op {
+	st := []string{"Success", "Success", "Success", "Keep", "Fail", "Repeat"}[g.r.Intn(6)]
+	o := Op{Kind: "Return", St: st}
+	o.Head = g.tasks(g.r.Intn(3)*g.r.Intn(2), nextId, dupPct, *present)
+	o.After = g.tasks(g.r.Intn(3)*g.r.Intn(2), nextId, dupPct, *present)
+	o.Tail = g.tasks(g.r.Intn(3)*g.r.Intn(2), nextId, dupPct, *present)
+	if len(o.Head)+len(o.After)+len(o.Tail) > 0 && g.r.Chance(50) {
+		o.Share = 1 + g.r.Intn(3)
+	}
+	for _, t := range append(append(append([]Task{}, o.Head...), o.After...), o.Tail...) {
+		*present = append(*present, t.Id)
+	}
+	return o
+}
+
+// overlapOp: one operation for the goroutine that runs while an observer is in progress
+func (g *gen) overlapOp(nextId *int, dupPct, absentPct int, present *[]int, allowReturn bool) Op {
+	n := 11
+	if allowReturn {
+		n = 14
+	}
+	switch k := g.r.Intn(n); k {
+	case 0:
+		t := g.newTask(nextId, dupPct, *present)
+		*present = append(*present, t.Id)
+		return Op{Kind: "AddFirst", T: &t}
+	case 1:
+		t := g.newTask(nextId, dupPct, *present)
+		*present = append(*present, t.Id)
+		return Op{Kind: "AddLast", T: &t}
+	case 2:
+		t := g.newTask(nextId, dupPct, *present)
+		o := Op{Kind: "AddAfter", Id: g.pickId(*present, absentPct), T: &t}
+		*present = append(*present, t.Id)
+		return o
+	case 3:
+		t := g.newTask(nextId, dupPct, *present)
+		o := Op{Kind: "AddBefore", Id: g.pickId(*present, absentPct), T: &t}
+		*present = append(*present, t.Id)
+		return o
+	case 4, 5, 6, 7:
+		return Op{Kind: "Remove", Id: g.pickId(*present, absentPct)}
+	case 8:
+		return Op{Kind: "RemoveFirst"}
+	case 9:
+		return Op{Kind: "RemoveLast"}
+	case 10:
+		var keep []int
+		for id := 1; id <= 6; id++ {
+			if g.r.Chance(70) {
+				keep = append(keep, id)
+			}
+		}
+		return Op{Kind: "Filter", Keep: keep}
+	default:
+		return g.ret(nextId, dupPct, present)
+	}
+}
+
+// observed: a queue of 1-7 tasks (worker started or not), then an observer held up at a random element
+// while another goroutine issues 1-5 operations (the last one may be the return of the handler in
+// progress), then sometimes a second observer overlapping one operation.
+func (g *gen) observed() Input {
+	var ops []Op
+	var present []int
+	g.uniq = 0
+	nextId := 1 + g.r.Intn(6)
+	started := g.r.Chance(50)
+	if started {
+		ops = append(ops, Op{Kind: "Start"})
+	}
+	n := 1 + g.r.Intn(7)
+	for i := 0; i < n; i++ {
+		t := g.newTask(&nextId, 0, present)
+		present = append(present, t.Id)
+		if g.r.Chance(80) {
+			ops = append(ops, Op{Kind: "AddLast", T: &t})
+		} else {
+			ops = append(ops, Op{Kind: "AddFirst", T: &t})
+		}
+	}
+	k := 1 + g.r.Intn(3)*g.r.Intn(3)
+	var chain []Op
+	for i := 0; i < k; i++ {
+		chain = append(chain, g.overlapOp(&nextId, 0, 10, &present, false))
+	}
+	if started && g.r.Chance(35) {
+		chain = append(chain, g.ret(&nextId, 0, &present))
+	}
+	pos := g.r.Intn(n)
+	if g.r.Chance(5) {
+		pos = n + g.r.Intn(2)
+	}
+	ops = append(ops, Op{Kind: "IterateDuring", Pos: pos, Via: g.r.Intn(2), Chain: chain})
+	if g.r.Chance(50) {
+		c := g.overlapOp(&nextId, 0, 10, &present, true)
+		ops = append(ops, Op{Kind: "IterateDuring", Pos: g.r.Intn(n + 1), Via: g.r.Intn(2), Chain: []Op{c}})
+	}
+	return Input{Ops: ops}
+}
+
+// observedEnum: queue [1..n] x worker started or not x the element the observer is held up at x the
+// overlapping operation (remove by id: each element and an absent id; RemoveFirst/RemoveLast; AddFirst/
+// AddLast; AddBefore/AddAfter each element and an absent anchor; Filter dropping each element / all;
+// the handler's Success with head and tail tasks, with after tasks, Keep, Fail).
+func observedEnum(ns []int, vias []int) []Input {
+	var ins []Input
+	for _, n := range ns {
+		for _, started := range []bool{false, true} {
+			var chainOps []Op
+			nt := func() *Task { return tp(7, 100) }
+			for id := 1; id <= n; id++ {
+				chainOps = append(chainOps, Op{Kind: "Remove", Id: id})
+			}
+			chainOps = append(chainOps, Op{Kind: "Remove", Id: 9}, Op{Kind: "RemoveFirst"}, Op{Kind: "RemoveLast"},
+				Op{Kind: "AddFirst", T: nt()}, Op{Kind: "AddLast", T: nt()})
+			for _, a := range []int{1, (n + 2) / 2, n, 9} {
+				chainOps = append(chainOps, Op{Kind: "AddBefore", Id: a, T: nt()}, Op{Kind: "AddAfter", Id: a, T: nt()})
+			}
+			for drop := 0; drop <= n; drop++ { // drop == 0: keep nothing
+				var keep []int
+				for id := 1; id <= n; id++ {
+					if drop != 0 && id != drop {
+						keep = append(keep, id)
+					}
+				}
+				chainOps = append(chainOps, Op{Kind: "Filter", Keep: keep})
+			}
+			if started {
+				chainOps = append(chainOps,
+					Op{Kind: "Return", St: "Success", Head: []Task{{7, 100}}, Tail: []Task{{8, 101}}},
+					Op{Kind: "Return", St: "Success", After: []Task{{7, 100}, {8, 101}}},
+					Op{Kind: "Return", St: "Success", Head: []Task{{7, 100}}, After: []Task{{8, 101}}, Tail: []Task{{7, 102}}, Share: 1},
+					Op{Kind: "Return", St: "Keep", Head: []Task{{7, 100}}, After: []Task{{8, 101}}},
+					Op{Kind: "Return", St: "Fail"})
+			}
+			for ci, c := range chainOps {
+				for pos := 0; pos < n; pos++ {
+					for _, via := range vias {
+						if via == 2 { // alternate between the two observers
+							via = (ci + pos) % 2
+						}
+						var ops []Op
+						if started {
+							ops = append(ops, Op{Kind: "Start"})
+						}
+						for id := 1; id <= n; id++ {
+							ops = append(ops, Op{Kind: "AddLast", T: tp(id, id)})
+						}
+						ops = append(ops, Op{Kind: "IterateDuring", Pos: pos, Via: via, Chain: []Op{c}})
+						ins = append(ins, Input{Ops: ops})
+					}
+				}
+			}
+		}
+	}
+	return ins
 }
 
 func tp(id, u int) *Task { return &Task{Id: id, Uniq: u} }
@@ -564,6 +892,15 @@ func Corpus() []Input {
 			{Kind: "FilterDuring", Keep: []int{1, 3}, C: &Op{Kind: "AddLast", T: tp(4, 4)}}}},
 		{Ops: []Op{{Kind: "AddLast", T: tp(1, 1)}, {Kind: "AddLast", T: tp(2, 2)}, {Kind: "AddLast", T: tp(3, 3)},
 			{Kind: "FilterDuring", Keep: []int{1, 2}, C: &Op{Kind: "Remove", Id: 1}}}},
+		// observers overlapping another goroutine's operations: the walk is a list the queue really held
+		{Ops: []Op{{Kind: "AddLast", T: tp(1, 1)}, {Kind: "AddLast", T: tp(2, 2)}, {Kind: "AddLast", T: tp(3, 3)}, {Kind: "AddLast", T: tp(4, 4)},
+			{Kind: "IterateDuring", Pos: 0, Chain: []Op{{Kind: "Remove", Id: 2}}}}},
+		{Ops: []Op{{Kind: "AddLast", T: tp(1, 1)}, {Kind: "AddLast", T: tp(2, 2)}, {Kind: "AddLast", T: tp(3, 3)}, {Kind: "AddLast", T: tp(4, 4)},
+			{Kind: "IterateDuring", Pos: 1, Via: 1, Chain: []Op{{Kind: "Remove", Id: 1}, {Kind: "AddFirst", T: tp(5, 5)}, {Kind: "RemoveLast"}}}}},
+		{Ops: []Op{{Kind: "Start"}, {Kind: "AddLast", T: tp(1, 1)}, {Kind: "AddLast", T: tp(2, 2)}, {Kind: "AddLast", T: tp(3, 3)},
+			{Kind: "IterateDuring", Pos: 1, Chain: []Op{{Kind: "AddAfter", Id: 2, T: tp(4, 4)},
+				{Kind: "Return", St: "Success", Head: []Task{{5, 5}}, After: []Task{{6, 6}}, Tail: []Task{{7, 7}}}}},
+			{Kind: "IterateDuring", Pos: 9, Via: 1, Chain: []Op{{Kind: "Filter", Keep: []int{5, 6, 7}}}}}},
 		// plain result application
 		{Ops: []Op{{Kind: "Start"}, {Kind: "AddLast", T: tp(1, 1)}, {Kind: "AddLast", T: tp(2, 2)},
 			{Kind: "Return", St: "Success", After: []Task{{3, 3}, {4, 4}}, Head: []Task{{5, 5}, {6, 6}}, Tail: []Task{{1, 7}}}}},
@@ -660,6 +997,21 @@ func Gen(r *core.Rng, tier string) ([]core.In[Input], bool) {
 	for i := 0; i < nBurst; i++ {
 		ins = append(ins, core.In[Input]{Input: g.burst(), Stream: "burst"})
 	}
+	// observers: systematic (queue size x worker x held-up element x overlapping operation) and random
+	// (several overlapping operations)
+	enumNs, enumVias, nObserved := []int{2, 3, 4}, []int{2}, 150
+	if tier == "thorough" {
+		enumNs, enumVias, nObserved = []int{1, 2, 3, 4, 5}, []int{0, 1}, 6000
+	}
+	if tier == "search" {
+		nObserved = 1000
+	}
+	for _, c := range observedEnum(enumNs, enumVias) {
+		ins = append(ins, core.In[Input]{Input: c, Stream: "observed-enum"})
+	}
+	for i := 0; i < nObserved; i++ {
+		ins = append(ins, core.In[Input]{Input: g.observed(), Stream: "observed"})
+	}
 	exhaustive := false
 	if tier == "thorough" || tier == "search" {
 		// exhaustive: Start followed by every sequence of 1..3 operations of the alphabet
@@ -685,6 +1037,6 @@ func Gen(r *core.Rng, tier string) ([]core.In[Input], bool) {
 
 var Driver = core.Driver[Input, Observation]{
 	Spec: core.Spec{Property: "C05", Imports: []string{"C05_Model", "C05_Spec", "C05_Corr"}, Corr: "C05_Corr", Triggers: []string{"F14"}, ShrinkKey: "ops",
-		Rule: "op sequences on a fresh TaskQueue (public API + started worker with a scripted handler); streams: corpus, burst (64-130 tasks queued, then removed by id in random order), random (fresh ids, 12% arbitrary anchors), trigger (40% reused ids), exhaustive (thorough: Start + all sequences of <=3 ops over a 19-op alphabet); 40% of the Filter operations have another goroutine issue an add/remove while the callback runs (FilterDuring: atomicity of the operations); non-trivial = >=3 ops of >=2 kinds with a non-empty queue at some point; distinct = distinct op sequence text"},
+		Rule: "op sequences on a fresh TaskQueue (public API + started worker with a scripted handler); streams: corpus, burst (64-130 tasks queued, then removed by id in random order), random (fresh ids, 12% arbitrary anchors), trigger (40% reused ids), exhaustive (thorough: Start + all sequences of <=3 ops over a 19-op alphabet); 40% of the Filter operations have another goroutine issue an add/remove while the callback runs (FilterDuring: atomicity of the operations); IterateDuring = an observer (Iterate with a callback, or String()) held up at a chosen element while another goroutine issues operations (the walk must be one of the lists the queue passes through): streams observed-enum (queue [1..n], n=2..4 (thorough 1..5) x worker started or not x every element to be held up at x every overlapping operation: Remove of each element / an absent id, RemoveFirst, RemoveLast, AddFirst, AddLast, AddBefore/AddAfter at the first, a middle, the last element and an absent anchor, Filter dropping each element / everything, the handler's Success with head+tail / after / all three, Keep, Fail), observed (1-7 tasks, 1-5 overlapping operations, the last possibly the handler's return, sometimes a second observer) and 8% of the operations of the random and trigger streams; non-trivial = >=3 ops of >=2 kinds with a non-empty queue at some point; distinct = distinct op sequence text"},
 	Gen: Gen, Run: Run, Render: Render, PerShard: 1000, Workers: 8, CaseTimout: 8 * time.Second,
 }
